@@ -346,8 +346,9 @@ def norm_out(kind, method, o):
     return [scal(o)]
 
 
-def run_real(rec, obj, kind, x):
-    """run return_all and every individual method on the real object; one record per method"""
+def run_real(rec, obj, kind, x, slow_ok=True):
+    """run return_all and every individual method on the real object; one record per method.
+    returns None when the first call (return_all) took longer than 60 ms and slow_ok is False"""
     methods = FLUID_METHODS if kind == 'fluid' else INERT_METHODS
     call = call_fluid if kind == 'fluid' else call_inert
     res = {}
@@ -356,6 +357,7 @@ def run_real(rec, obj, kind, x):
             obj.K = None            # return_all from a fresh cache; the individual methods thread it from a fresh cache
         K0 = None if kind != 'fluid' or obj.K is None else np.array(obj.K, dtype=float, copy=True)
         rec.start(obj)
+        t0 = time.time()
         try:
             with S.quiet():
                 o = call(obj, mth, x)
@@ -363,8 +365,10 @@ def run_real(rec, obj, kind, x):
         except Exception as e:          # a method that raises for valid input belongs to C20
             out = Raised(e)
         table = rec.stop()
+        if mth == 'return_all' and not slow_ok and time.time() - t0 > 0.06:
+            return None
         K1 = None if kind != 'fluid' or obj.K is None else np.array(obj.K, dtype=float, copy=True)
-        res[mth] = dict(K0=K0, K1=K1, out=out, table=table)
+        res[mth] = dict(K0=K0, K1=K1, out=out, table=table, slow=(time.time() - t0 > 0.06))
     return res
 
 
@@ -494,19 +498,6 @@ def run(ctx, lean_ok):
                 if fpt is not None:
                     st['band'] = ['small', 'mid', 'large'][(i // 3) % 3]
                     st['de'] = {'small': lu(r, 50e-6, 300e-6), 'mid': lu(r, 1e-3, 6e-3), 'large': lu(r, 2e-2, 5e-2)}[st['band']]
-                if descr['fp_type'] == 2:
-                    t0 = time.time()
-                    try:
-                        with S.quiet():
-                            obj.equilibrium(np.array(yk * obj.M), st['T'], st['P'])
-                    except Exception:
-                        pass
-                    if time.time() - t0 > 0.05:
-                        if slow_budget <= 0:
-                            ctx.count('mixed-phase state skipped (flash slower than 50 ms)')
-                            continue
-                        slow_budget -= 1
-                        ctx.count('mixed-phase state with a slow flash kept')
                 m = fluid_masses(obj, yk, st, descr['fp_type'])
                 x = dict(m=[float(v) for v in m], T=st['T'], P=st['P'], Sa=st['Sa'], Ta=st['Ta'], status=st['status'])
             else:
@@ -515,7 +506,13 @@ def run(ctx, lean_ok):
                     m = float(obj.mass_by_diameter(st['de'], st['T'], st['P'], st['Sa'], st['Ta']))
                 x = dict(m=m, T=st['T'], P=st['P'], Sa=st['Sa'], Ta=st['Ta'], status=st['status'])
             i = len(cases)
-            res = run_real(rec, obj, kind, x)
+            res = run_real(rec, obj, kind, x, slow_ok=(slow_budget > 0 or descr.get('fp_type') != 2 or 'corpus' in descr))
+            if res is None:
+                ctx.count('mixed-phase state skipped (flash slower than 60 ms)')
+                continue
+            if descr.get('fp_type') == 2 and res['return_all'].get('slow'):
+                slow_budget -= 1
+                ctx.count('mixed-phase state with a slow flash kept')
             c = dict(idx=i, kind=kind, descr=descr, x=x, de=st['de'], band=st['band'], res=res)
             cases.append(c)
             for mth, rr in res.items():
